@@ -138,6 +138,7 @@ type ErrorReporter interface {
 // requests from the transport.
 func NewConn(t Transport, opts *Options) *Conn {
 	bgctx, bgcancel := context.WithCancel(context.Background())
+	t = verifWrapTransport(t)
 	c := &Conn{
 		transport: t,
 		shut:      make(chan struct{}),
